@@ -84,8 +84,10 @@ func lexemeAt(s string, off int) (class, text string) {
 		}
 		return "word", s[off:e]
 	case reflex.IsDigit(c):
+		// the whole numeric literal: fraction and signed exponent included
 		e := off
-		for e < len(s) && reflex.IsIdentPart(s[e]) {
+		hex := off+1 < len(s) && (s[off+1] == 'x' || s[off+1] == 'X')
+		for e < len(s) && (reflex.IsIdentPart(s[e]) || (s[e] == '.' && e+1 < len(s) && reflex.IsDigit(s[e+1])) || ((s[e] == '+' || s[e] == '-') && !hex && e > off && (s[e-1] == 'e' || s[e-1] == 'E'))) {
 			e++
 		}
 		return "number", s[off:e]
